@@ -203,7 +203,7 @@ def proof_stage(ctx: Ctx, module: str, extra_scan: list[str] = (), regenerate=No
             ctx.broken.append({"kind": "proof", "name": module, "detail": "leanchecker rejected the module"})
 
 
-DRIVER_MODULES = {"sampling": "CobraModel.Driver.Sampling", "schedule": "CobraModel.Driver.Schedule", "sbmlid": "CobraModel.Driver.SbmlId", "dl": "CobraModel.Driver.DL", "gpr": "CobraModel.Driver.GPR", "core": "CobraModel.Driver.Core", "lp": "CobraModel.Driver.LP", "summary": "CobraModel.Driver.Summary", "dictio": "CobraModel.Driver.DictIO", "medium": "CobraModel.Driver.Medium"}
+DRIVER_MODULES = {"sampling": "CobraModel.Driver.Sampling", "schedule": "CobraModel.Driver.Schedule", "sbmlid": "CobraModel.Driver.SbmlId", "dl": "CobraModel.Driver.DL", "gpr": "CobraModel.Driver.GPR", "core": "CobraModel.Driver.Core", "lp": "CobraModel.Driver.LP", "summary": "CobraModel.Driver.Summary", "dictio": "CobraModel.Driver.DictIO", "medium": "CobraModel.Driver.Medium", "auxprob": "CobraModel.Driver.AuxProb"}
 _driver_built: set = set()
 
 
